@@ -49,6 +49,25 @@ PROPS["C09"] = {
     "assumptions": [],
 }
 
+PROPS["C02"] = {
+    "suites": [("comp_buf", "gen_c02")],
+    "rule": "one message of every kind in two sizes, text with > < & quotes non-ASCII ]]> in 6 XML spellings (library to_string, compact, indented, single quotes + reversed attributes, "
+            "explicit empty elements + raw '>' in text + declaration in single quotes, attributes on separate lines + CRLF); per stream all 1-cut partitions, all 2-cut partitions when "
+            "short (sampled otherwise), character-by-character, whole; thresholds {exactly fitting, one below (outside the hypothesis), 2048, disabled}; sequences of 2-5 messages with random "
+            "k-cuts and cuts at/around every message boundary; distinct by (threshold, partition)",
+    "trusted_base": ["the parser parameter of the model is the table of substrings the real parser accepts (tools/comp_buf.build_table)"],
+    "assumptions": ["(A1) whatever parses contains the opener of a registered tag; spellings without CDATA/comments containing openers"],
+}
+PROPS["C11"] = {
+    "suites": [("comp_buf", "gen_c11")],
+    "rule": "valid messages truncated at every position followed by valid traffic; junk assembled from protocol fragments (known/unknown openers and closers, attributes, quotes, "
+            "< > &, comments, CDATA, declarations, NUL, Latin-1, entity references) interleaved with valid and truncated messages and random bytes; long junk beyond every threshold "
+            "then valid messages; x random fragmentations x thresholds {16, 128, 2048, disabled}; watchdog on every process(); distinct by (threshold, partition)",
+    "trusted_base": ["table parser as for C02", "step/time watchdog (10 s, 10000 callbacks) stands for 'terminates' on the implementation side"],
+    "assumptions": ["the resynchronisation clause after a corrupt element is covered at the abstract level only by C11_junk_delivers_nothing/C11_bounded + C02 (opener-free junk); "
+                    "junk that imitates protocol elements is compared with the model, not proved to resynchronise (partial)"],
+}
+
 MANIFEST_TEXT = {
     "C20": {
         "text": "Kernel-checked theorem C20 (lean/Indi/Properties/C20.lean): for every class table passing the decidable well-formedness check, and every two constructed "
@@ -96,5 +115,25 @@ MANIFEST_TEXT = {
                 "correspondence on real Driver instances; oracle = Spec.Switch.holds evaluated in Lean on the observed before/snapshots/after.",
         "note": "Trusted: Lean kernel + standard axioms; the correspondence harness; only enabled vectors publish (disabled properties are C07's subject).",
         "technique": "Lean 4 transition invariants + induction over operation sequences + exhaustive transition correspondence",
+    },
+    "C02": {
+        "text": "Kernel-checked theorem C02_abstract (lean/Indi/Properties/C02.lean), for an ARBITRARY parser, tag list and threshold (enabled or disabled): feed any list of pieces whose "
+                "concatenation is a prefix of an admissible stream (opener-free junk gaps, bodies that start with a known opener, parse, have no parsing proper prefix, fit the threshold); "
+                "the concatenated deliveries are exactly the messages whose last character has arrived - so each message is delivered once, in order, at the call following its last "
+                "character, for every partition (C02_fragmentation_independent). Proof: cleanup absorbs, one-shot lemma, session invariant (869 lines, Proofs/Buf.lean). Instance obligations: "
+                "no registered tag contains '<', thresholds 2048/None (decide on regenerated tables). Tied to buffer.py by a differential correspondence in which the model runs with the table "
+                "of substrings the real parser accepts; oracle = Spec expectedCalls computed in Lean after checking StreamOk on the case.",
+        "note": "Trusted: Lean kernel + standard axioms; that library/foreign spellings are Admissible for the real parser is checked per case by the executable streamOkB (and assumed in general: "
+                "the character-level XML lemmas are not proved); tools/comp_buf.build_table.",
+        "technique": "Lean 4 proof by induction (well-founded process loop, session invariant) for an abstract parser + differential correspondence with table-instantiated parser",
+    },
+    "C11": {
+        "text": "Kernel-checked theorems (lean/Indi/Properties/C11.lean) for ANY text, ANY parser: processLoop is total (termination proof, measure = retained length) with no error outcome; "
+                "C11_bounded (retained length <= threshold whenever enabled), C11_genuine (only parser results are delivered, never None), C11_retained_suffix, "
+                "C11_junk_delivers_nothing; transparency of opener-free junk around valid messages is C02_abstract. Correspondence against buffer.py over junk assembled from protocol "
+                "fragments, truncations at every position and long junk, all thresholds, with a watchdog; oracle c11Holds in Lean on the observed calls.",
+        "note": "Partial: resynchronisation after a corrupt element that imitates protocol elements is explored (model = implementation on all cases) but not proved; wall-clock hang-freedom "
+                "of CPython/expat is represented by the watchdog only.",
+        "technique": "Lean 4 termination proof + invariants over the process loop + differential correspondence with watchdog",
     },
 }
